@@ -37,6 +37,8 @@ def run(tier):
     for ty in c11.FIELD4:
         c11.complex_field(chk, F, ty, thorough=True, branches=False, only=("powi", "powf", "powc", "sqrt", "cbrt", "recip"))
     chk.floor("ComplexField forwarding items", chk.analysed.get("ComplexField forwarding items", 0), 4 * 6)
+    from . import c17
+    c17.python_wrappers(chk, {"powi", "powf", "powd", "sqrt", "cbrt", "recip"})
     chk.floor("powi bodies range-analysed", chk.analysed.get("powi bodies range-analysed", 0), 8)
     chk.floor("end-to-end evaluations", chk.analysed.get("end-to-end evaluations", 0), 8 * 10)
     return chk.finish()
